@@ -62,6 +62,11 @@ func evalC11(c c11Case) ([]c11Finding, error) {
 	}
 	var m vegeta.Metrics
 	hdr := vegeta.NewHDRHistogramPlotReporter(&m) // one reporter for the whole run, rendered at every intermediate Close as periodic reporting does
+	// the first tick of a periodic report may come before the first result: a rendering of nothing (whatever it
+	// shows) must not matter to the renderings that follow
+	_ = hdr.Report(io.Discard)
+	var none vegeta.Metrics
+	_ = vegeta.NewHDRHistogramPlotReporter(&none).Report(io.Discard)
 	closes := map[int]bool{}
 	for _, p := range c.Closes {
 		closes[p] = true
